@@ -13,7 +13,9 @@
                           them occurs with the real tables on the generated documents (oracle sweep), each of them is a real
                           difference on suitable tables (`..._refuted`, `C17_mixup_panics`).
    Fixed in /repo while building this (both found by the oracle on the real library): enumeration values in element text
-   were never checked; attributes unknown to the target version's element type were skipped. *)
+   were never checked; attributes unknown to the target version's element type were skipped.  Fixed later (found by C12's panic
+   search, predicted by this model as class K_mixup): the sub-element mask was read from the stored type with the recalculated
+   type's index list; since then K_mixup is not needed for exactness (C17_exact_fixed). *)
 From AV Require Import Base.Bytes Base.Outcome Hash.HashModel Spec.SpecReal Tree.Heap Tree.Ops Tree.Compat Tree.CompatSpec
   Tree.CompatProofs1 Tree.CompatProofs2 Tree.CompatProofs3 Tree.CompatProofs4 Tree.Serialize
   Tree.CompatTyped Tree.CompatProofs5 Tree.CompatReal Tree.CompatBridge Tree.CompatProofs6 Tree.CompatProofs7 Tree.CompatProofs8
@@ -104,6 +106,21 @@ Proof. exact skip_refuted. Qed.
 (* the mask is read from the stored type with the index list of the recalculated type: the check can panic *)
 Theorem C17_mixup_panics : exists T w f v site, f_check T w f v = Pan site.
 Proof. exact mixup_panics. Qed.
+
+(* ---- after the fix of the mask lookup in element.rs (fix: the mask is read from the recalculated type, for which the index list
+   was computed; it used to be read from the element's STORED type: class K_mixup, an index-out-of-bounds panic on the real
+   library after a move / copy below a parent that lists the name with another type, findings/C12-panic-check-compat-mixup.json).
+   K_mixup is no longer a side condition of exactness; C17_exact above keeps its (weaker) statement.  C17_mixup_panics keeps its
+   statement too: the only panics left in f_check are dangling ids; the former witness state is checked without a panic.
+   That the lookup cannot miss with the right type is C17_lookup_mask (for the target version and for u32::MAX alike). *)
+(* [U] exactness outside K_skip / K_recalc only *)
+Theorem C17_exact_fixed : forall (T : tables) (w : world) (f v : N),
+  K_skip T w f v -> K_recalc T w f v ->
+  forall r : cres, f_check T w f v = Val r -> (fst r = [] <-> ValidIn T w f v).
+Proof. exact f_check_exact_fixed. Qed.
+(* the former panic witness (toy tables TT, state W3, target 2): clean now *)
+Theorem C17_mixup_state_fixed : f_check TT W3 0 2 = Val ([], 2).
+Proof. exact mixup_state_fixed. Qed.
 (* an error with mask u32::MAX: errors are listed and the mask still contains the target *)
 Theorem C17_mask_refuted :
   exists T w f v errs mask, version_bit v /\ f_check T w f v = Val (errs, mask) /\ errs <> [] /\ N.land mask v <> 0.
